@@ -358,6 +358,27 @@ func seededStatsGenesis(n int) (string, *Shadow) {
 		amounts = append(amounts, fmt.Sprintf(`{"source_id":{"protocol_id":"PROTOCOL_IBC","counterparty_id":"channel-0"},"destination_id":{"protocol_id":"PROTOCOL_INTERNAL","counterparty_id":"%s"},"denom":"uusdc","amount_dispatched":{"incoming":"%s","outgoing":"%s"}}`, cp, in, out))
 		counts = append(counts, fmt.Sprintf(`{"source_id":{"protocol_id":"PROTOCOL_IBC","counterparty_id":"channel-0"},"destination_id":{"protocol_id":"PROTOCOL_INTERNAL","counterparty_id":"%s"},"count":"%d"}`, cp, 3+i))
 	}
+	// routes whose source is not IBC (a chain that received orbiter transfers over other adapters,
+	// or a migrated ledger): every source protocol x destination protocol, so that listings by
+	// destination meet entries whose source protocol equals the listed one
+	pn := map[int]string{1: "PROTOCOL_IBC", 2: "PROTOCOL_CCTP", 3: "PROTOCOL_HYPERLANE", 4: "PROTOCOL_INTERNAL"}
+	scp := map[int][]string{2: {"0", "5"}, 3: {"1", "42161"}, 4: {"noble-1", "a"}}
+	i := 0
+	for _, sp := range []int{2, 3, 4} {
+		for _, sc := range scp[sp] {
+			for _, dp := range []int{2, 3, 4} {
+				i++
+				dc := scp[dp][i%2]
+				ck := fmt.Sprintf("%d|%s|%d|%s", sp, sc, dp, dc)
+				ak := ck + "|uusdc"
+				in, out := big.NewInt(int64(70_000+i)), big.NewInt(int64(60_000+i))
+				sh.In[ak], sh.Out[ak], sh.Fees[ak] = in, out, new(big.Int).Sub(in, out)
+				sh.Count[ck] = uint64(100 + i)
+				amounts = append(amounts, fmt.Sprintf(`{"source_id":{"protocol_id":"%s","counterparty_id":"%s"},"destination_id":{"protocol_id":"%s","counterparty_id":"%s"},"denom":"uusdc","amount_dispatched":{"incoming":"%s","outgoing":"%s"}}`, pn[sp], sc, pn[dp], dc, in, out))
+				counts = append(counts, fmt.Sprintf(`{"source_id":{"protocol_id":"%s","counterparty_id":"%s"},"destination_id":{"protocol_id":"%s","counterparty_id":"%s"},"count":"%d"}`, pn[sp], sc, pn[dp], dc, 100+i))
+			}
+		}
+	}
 	gen := fmt.Sprintf(`{"adapter_genesis":{"params":{"max_passthrough_payload_size":0}},"dispatcher_genesis":{"dispatched_amounts":[%s],"dispatched_counts":[%s]},"forwarder_genesis":{"paused_protocol_ids":[],"paused_cross_chain_ids":[]},"executor_genesis":{"paused_action_ids":[]}}`,
 		strings.Join(amounts, ","), strings.Join(counts, ","))
 	return gen, sh
